@@ -5,6 +5,7 @@
 //  Distributed under the Boost Software License, Version 1.0. (See accompanying
 //  file LICENSE_1_0.txt or copy at http://www.boost.org/LICENSE_1_0.txt)
 
+#include <pika/config.hpp>
 #include <pika/assert.hpp>
 #include <pika/execution_base/this_thread.hpp>
 #include <pika/logging.hpp>
@@ -67,6 +68,7 @@ namespace pika::detail {
             // remove item from queue before error handling
             queue_.front().ctx_.reset();
             queue_.pop_front();
+            PIKA_VERIF_POINT("cv.notify.pop", this, queue_.size(), 0);
 
             if (PIKA_UNLIKELY(!ctx))
             {
@@ -106,6 +108,7 @@ namespace pika::detail {
             auto ctx = qe.ctx_;
             qe.ctx_.reset();
             queue.pop_front();
+            PIKA_VERIF_POINT("cv.notifyall.pop", this, queue.size(), 0);
             ctx.resume();
         }
 
@@ -128,12 +131,15 @@ namespace pika::detail {
         auto this_ctx = pika::execution::this_thread::detail::agent();
         queue_entry f(this_ctx, &queue_);
         queue_.push_back(f);
+        PIKA_VERIF_POINT("cv.wait.enq", this, queue_.size(), 0);
 
         reset_queue_entry r(f, queue_);
         {
             // suspend this thread
             ::pika::detail::unlock_guard<std::unique_lock<mutex_type>> ul(lock);
+            PIKA_VERIF_POINT("cv.wait.unlocked", this, 0, 0);
             this_ctx.suspend();
+            PIKA_VERIF_POINT("cv.wait.resumed", this, 0, 0);
         }
 
         return f.ctx_ ? pika::threads::detail::thread_restart_state::timeout :
@@ -150,12 +156,15 @@ namespace pika::detail {
         auto this_ctx = pika::execution::this_thread::detail::agent();
         queue_entry f(this_ctx, &queue_);
         queue_.push_back(f);
+        PIKA_VERIF_POINT("cv.wait.enq", this, queue_.size(), 0);
 
         reset_queue_entry r(f, queue_);
         {
             // suspend this thread
             ::pika::detail::unlock_guard<std::unique_lock<mutex_type>> ul(lock);
+            PIKA_VERIF_POINT("cv.wait.unlocked", this, 1, 0);
             this_ctx.sleep_until(abs_time.value());
+            PIKA_VERIF_POINT("cv.wait.resumed", this, 1, 0);
         }
 
         return f.ctx_ ? pika::threads::detail::thread_restart_state::timeout :
